@@ -348,3 +348,15 @@ Qed.
 Theorem repair_only_changes_exception_lemma s :
   tokenize_pinned s = tokenize s \/ (tokenize_pinned s = Err PopEmpty /\ tokenize s = Err TokenizerError).
 Proof. apply run_repair. Qed.
+
+Lemma tok_total_pinned_refuted_lemma : exists s, tokenize_pinned s = Err PopEmpty.
+Proof. exists [RP]. exact (proj1 tok_pinned_crash). Qed.
+
+(* the pinned tree outside the defect's signature *)
+Theorem tok_total_pinned_partial_lemma s :
+  tokenize_pinned s <> Err PopEmpty ->
+  (exists ts, tokenize_pinned s = Ok ts) \/ tokenize_pinned s = Err TokenizerError.
+Proof.
+  intros H. destruct (repair_only_changes_exception_lemma s) as [E|[E _]]; [|contradiction].
+  rewrite E. apply tok_total_lemma.
+Qed.
